@@ -97,7 +97,14 @@ def main():
             json.dump(merged['extra']['survey'], fp, indent=1, default=str)
         for sig, ent in sorted(merged['extra']['survey'].items(), key=lambda kv: -kv[1]['count']):
             print(f'SURVEY {ent["count"]:5d} {sig}  | {ent.get("detail", "")[:160]}')
-    for line in sorted(set(merged['known_lines'])):
+    # one KNOWN-FINDING line per listed finding that was met in this run (by its witness replay or by generated cases)
+    lines = set(merged['known_lines'])
+    from . import core
+    by_id = {f["id"]: f for f in core.load_known(prop)}
+    for fid, n in sorted(merged['known_hits'].items()):
+        if n > 0 and fid in by_id and not any(f' {fid} ' in ln for ln in lines):
+            lines.add(f'KNOWN-FINDING: property={prop} {fid} {by_id[fid]["what"]}')
+    for line in sorted(lines):
         print(line)
     print(f'[{prop}] tier={args.tier} seed={seed} shards={nshards} cases={merged["cases"]} '
           f'evaluations={merged["evaluations"]} distinct_nontrivial={len(merged["nontrivial"])} '
